@@ -36,6 +36,7 @@ const (
 	KModKill    = "mod_kill"
 	KModUpdate  = "mod_update"
 	KRestart    = "restart" // zero-height restart: prepare, export, wipe the service store, import the exported genesis
+	KSetParams  = "set_params" // a governance parameter change (applied directly, as the params module does)
 	KProbe      = "probe" // read-only observation point on a branch of the state (C17 queries, C19 export/import)
 )
 
@@ -71,6 +72,7 @@ type Action struct {
 	Msgs      []Action `json:"msgs,omitempty"`     // tx
 	Tag       string   `json:"tag,omitempty"`      // generator annotation (e.g. "boundary")
 	Extra     string   `json:"extra,omitempty"`    // probe payload (e.g. the queries to ask)
+	Params    *Config  `json:"params,omitempty"`   // set_params: the new parameter values (funding / module service ignored)
 }
 
 func (a Action) String() string {
